@@ -18,9 +18,9 @@ def Inv (c : Hls.Cfg) (g : Gen) : Prop :=
   Numbered g ∧ g.playlist.length ≤ c.remain ∧ (g.deleted ≠ [] → g.playlist.length = c.remain)
   ∧ (∀ s ∈ g.deleted ++ g.playlist, ¬ s.dur * 1000 < (c.minDurMs : Int) * 90000)
 
-theorem inv_init (c : Hls.Cfg) : Inv c init := by
-  refine ⟨⟨by simp [init, segmentOpen], ⟨_, rfl, by simp [init, segmentOpen], by simp [init, segmentOpen]⟩⟩,
-    by simp [init, segmentOpen], by simp [init, segmentOpen], by simp [init, segmentOpen]⟩
+theorem inv_init (c : Hls.Cfg) (b : Bool) : Inv c (initWith b) := by
+  refine ⟨⟨by simp [initWith, segmentOpen], ⟨_, rfl, by simp [initWith, segmentOpen], by simp [initWith, segmentOpen]⟩⟩,
+    by simp [initWith, segmentOpen], by simp [initWith, segmentOpen], by simp [initWith, segmentOpen]⟩
 
 theorem flushFrame_inv (c : Hls.Cfg) (g g' : Gen) (f : Frame) (h : flushFrame g f = some g') (hi : Inv c g) :
     Inv c g' := by
@@ -28,7 +28,7 @@ theorem flushFrame_inv (c : Hls.Cfg) (g g' : Gen) (f : Frame) (h : flushFrame g 
   simp only [flushFrame, hs] at h
   injection h with h; subst h
   refine ⟨⟨hn, ⟨_, rfl, ?_, hno⟩⟩, h2, h3, h4⟩
-  simp only [updateDuration]; split <;> simp [hseq]
+  simp only [updateDuration]; split <;> split <;> simp [hseq]
 
 theorem flushAudioCache_inv (c : Hls.Cfg) (g g' : Gen) (h : flushAudioCache g = some g') (hi : Inv c g) :
     Inv c g' := by
